@@ -35,7 +35,7 @@ try:
 finally:
     sh("git -C /repo worktree remove --force %s; rm -rf %s %s %s; git -C /repo worktree prune" % (wt, wt, coq, out))
 mp = os.path.join(VERIF, "seeded", sid, "meta.json")
-meta = json.load(open(mp))
+meta = json.load(open(mp)) if os.path.exists(mp) else {"property": None, "neutral": True}
 det = meta.get("detected_by") or {}
 det.update(results)
 meta["detected_by"] = det
